@@ -123,7 +123,7 @@ Qed.
 Theorem step_never_panics (s : st) o : snd (step s o) <> Panic.
 Proof.
   destruct o; cbn [step]; unfold add_channel, set_enabled_index.
-  - destruct (negb (extra s)); discriminate.
+  - destruct (negb (accepts (extra s) (updr s) f mn mx)); discriminate.
   - destruct ((i <? 0) || (i >? zlen (up s) - 1)); discriminate.
   - destruct ((i <? 0) || (i >? zlen (up s) - 1)); discriminate.
 Qed.
@@ -257,7 +257,7 @@ Qed.
 Theorem frequency_dr_prefix_refuted :
   let c1 := mkChannel 868300000 6 6 true true in
   let c2 := mkChannel 868300000 7 7 true true in
-  let s := mkSt true 0 5 [c1; c2] [c1; c2] [] in
+  let s := mkSt true 0 5 [c1; c2] [c1; c2] [] [0; 1; 2; 3; 4; 5; 6; 7] in
   get_uplink_channel_index_for_frequency_dr_prefix s 868300000 7 = Err /\
   matches_freq_dr (up s) 868300000 7 1 = true /\
   get_uplink_channel_index_for_frequency_dr s 868300000 7 = Ok 1.
@@ -266,10 +266,12 @@ Proof. vm_compute. repeat split; reflexivity. Qed.
 
 (* ---- histories ------------------------------------------------------------------------------ *)
 
-(* channels appended by the AddChannel calls of a history (when the band supports them) *)
-Definition adds (ext : bool) (ops : list op) : list channel :=
+(* channels appended by the AddChannel calls of a history: those the band accepts
+   (extra channels supported, data-rate range made of uplink data-rates of the band,
+   frequency NewChannelReq can carry - [accepts]) *)
+Definition adds (ext : bool) (drs : list Z) (ops : list op) : list channel :=
   flat_map (fun o => match o with
-                     | AddChannel f mn mx => if ext then [mkChannel f mn mx (negb (f =? 0)) true] else []
+                     | AddChannel f mn mx => if accepts ext drs f mn mx then [mkChannel f mn mx (negb (f =? 0)) true] else []
                      | _ => []
                      end) ops.
 
@@ -285,25 +287,33 @@ Qed.
 Lemma run_cons s o ops : run s (o :: ops) = run (fst (step s o)) ops.
 Proof. reflexivity. Qed.
 
-Definition add1 (ext : bool) (o : op) : list channel :=
+Definition add1 (ext : bool) (drs : list Z) (o : op) : list channel :=
   match o with
-  | AddChannel f mn mx => if ext then [mkChannel f mn mx (negb (f =? 0)) true] else []
+  | AddChannel f mn mx => if accepts ext drs f mn mx then [mkChannel f mn mx (negb (f =? 0)) true] else []
   | _ => []
   end.
 
-Lemma adds_cons ext o ops : adds ext (o :: ops) = add1 ext o ++ adds ext ops.
+Lemma adds_cons ext drs o ops : adds ext drs (o :: ops) = add1 ext drs o ++ adds ext drs ops.
 Proof. reflexivity. Qed.
+
+Lemma step_updr (s : st) (o : op) : updr (fst (step s o)) = updr s.
+Proof.
+  destruct o as [f mn mx|i|i]; cbn [step].
+  - unfold add_channel. destruct (negb (accepts (extra s) (updr s) f mn mx)); reflexivity.
+  - unfold set_enabled_index. destruct ((i <? 0) || (i >? zlen (up s) - 1)); reflexivity.
+  - unfold set_enabled_index. destruct ((i <? 0) || (i >? zlen (up s) - 1)); reflexivity.
+Qed.
 
 Lemma step_tables (s : st) (o : op) :
   let s' := fst (step s o) in
   extra s' = extra s /\ cfmin s' = cfmin s /\ cfmax s' = cfmax s /\ txp s' = txp s /\
-  down s' = down s ++ add1 (extra s) o /\
-  map ident (up s') = map ident (up s ++ add1 (extra s) o).
+  down s' = down s ++ add1 (extra s) (updr s) o /\
+  map ident (up s') = map ident (up s ++ add1 (extra s) (updr s) o).
 Proof.
   cbv zeta. destruct o as [f mn mx|i|i]; cbn [step add1].
-  - unfold add_channel. destruct (extra s) eqn:X; cbn [negb fst extra cfmin cfmax txp down up].
-    + repeat split; try reflexivity; try exact X.
-    + rewrite !app_nil_r. repeat split; try reflexivity; try exact X.
+  - unfold add_channel. destruct (accepts (extra s) (updr s) f mn mx) eqn:X; cbn [negb fst extra cfmin cfmax txp down up].
+    + repeat split; reflexivity.
+    + rewrite !app_nil_r. repeat split; reflexivity.
   - unfold set_enabled_index. destruct ((i <? 0) || (i >? zlen (up s) - 1)); cbn [fst];
       rewrite !app_nil_r; [repeat split; reflexivity|].
     unfold set_up. cbn [extra cfmin cfmax txp down up]. repeat split; try reflexivity.
@@ -312,30 +322,36 @@ Proof.
       rewrite !app_nil_r; [repeat split; reflexivity|].
     unfold set_up. cbn [extra cfmin cfmax txp down up]. repeat split; try reflexivity.
     now apply map_nth_ident.
+Qed.
+
+Lemma run_updr (ops : list op) : forall s, updr (run s ops) = updr s.
+Proof.
+  induction ops as [|o ops IH]; intros s; [reflexivity|]. rewrite run_cons, IH. apply step_updr.
 Qed.
 
 (* the whole effect of any history on the tables, in one statement *)
 Theorem run_tables (ops : list op) : forall s,
   let s' := run s ops in
   extra s' = extra s /\ cfmin s' = cfmin s /\ cfmax s' = cfmax s /\ txp s' = txp s /\
-  down s' = down s ++ adds (extra s) ops /\
-  map ident (up s') = map ident (up s ++ adds (extra s) ops).
+  down s' = down s ++ adds (extra s) (updr s) ops /\
+  map ident (up s') = map ident (up s ++ adds (extra s) (updr s) ops).
 Proof.
   induction ops as [|o ops IH]; intros s; cbv zeta.
   - cbn. rewrite !app_nil_r. repeat split; reflexivity.
   - rewrite run_cons. specialize (IH (fst (step s o))). cbv zeta in IH.
     destruct IH as [E1 [E2 [E3 [E4 [E5 E6]]]]].
     destruct (step_tables s o) as [F1 [F2 [F3 [F4 [F5 F6]]]]].
+    rewrite (step_updr s o) in E5, E6.
     rewrite adds_cons. rewrite E1, E2, E3, E4, E5, E6, F1, F2, F3, F4, F5.
     repeat split; try reflexivity.
     + now rewrite app_assoc.
     + rewrite !map_app in *. rewrite F6. now rewrite app_assoc.
 Qed.
 
-Lemma adds_custom ext ops : Forall (fun c => custom c = true) (adds ext ops).
+Lemma adds_custom ext drs ops : Forall (fun c => custom c = true) (adds ext drs ops).
 Proof.
   induction ops as [|o ops IH]; cbn [adds flat_map]; [constructor|].
-  apply Forall_app. split; [|exact IH]. destruct o; try constructor. destruct ext; repeat constructor.
+  apply Forall_app. split; [|exact IH]. destruct o; try constructor. destruct (accepts ext drs f mn mx); repeat constructor.
 Qed.
 
 Lemma ident_nth u u' i c : map ident u' = map ident u -> nth_error u i = Some c ->
@@ -357,7 +373,7 @@ Proof.
   intros E. pose proof (chan_at_range _ _ _ E) as R.
   destruct (run_tables ops s) as [_ [_ [_ [_ [_ H]]]]].
   destruct (chan_at_some _ _ R) as [c0 [E0 N0]]. rewrite E in E0. injection E0 as <-.
-  assert (N1 : nth_error (up s ++ adds (extra s) ops) (Z.to_nat i) = Some c).
+  assert (N1 : nth_error (up s ++ adds (extra s) (updr s) ops) (Z.to_nat i) = Some c).
   { rewrite nth_error_app1; [exact N0|]. unfold zlen in R. lia. }
   destruct (ident_nth _ _ _ _ H N1) as [c' [N' I]].
   exists c'. split; [apply chan_at_nth; [exact N'|lia]|].
@@ -372,16 +388,16 @@ Proof.
   destruct (chan_at_some _ _ R) as [c0 [E0 N0]]. rewrite E in E0. injection E0 as <-.
   destruct (ident_nth _ _ _ _ (eq_sym H) N0) as [c' [N' I]].
   unfold zlen in Hi. rewrite nth_error_app2 in N' by lia.
-  apply nth_error_In in N'. pose proof (adds_custom (extra s) ops) as F. rewrite Forall_forall in F.
+  apply nth_error_In in N'. pose proof (adds_custom (extra s) (updr s) ops) as F. rewrite Forall_forall in F.
   apply F in N'. unfold ident in I. injection I as _ _ _ X. congruence.
 Qed.
 
 Theorem channel_count (s : st) (ops : list op) :
-  zlen (up (run s ops)) = zlen (up s) + zlen (adds (extra s) ops) /\
-  zlen (down (run s ops)) = zlen (down s) + zlen (adds (extra s) ops).
+  zlen (up (run s ops)) = zlen (up s) + zlen (adds (extra s) (updr s) ops) /\
+  zlen (down (run s ops)) = zlen (down s) + zlen (adds (extra s) (updr s) ops).
 Proof.
   destruct (run_tables ops s) as [_ [_ [_ [_ [D U]]]]]. unfold zlen. split.
-  - assert (length (map ident (up (run s ops))) = length (map ident (up s ++ adds (extra s) ops))) by now rewrite U.
+  - assert (length (map ident (up (run s ops))) = length (map ident (up s ++ adds (extra s) (updr s) ops))) by now rewrite U.
     rewrite !map_length, app_length in H. lia.
   - rewrite D, app_length. lia.
 Qed.
@@ -420,15 +436,70 @@ Qed.
 
 Theorem step_outcome (s : st) o :
   snd (step s o) = match o with
-                   | AddChannel _ _ _ => if extra s then Ok tt else Err
+                   | AddChannel f mn mx => if accepts (extra s) (updr s) f mn mx then Ok tt else Err
                    | Disable i | Enable i => if (0 <=? i) && (i <? zlen (up s)) then Ok tt else Err
                    end.
 Proof.
   destruct o; cbn [step]; unfold add_channel, set_enabled_index.
-  - destruct (extra s); reflexivity.
+  - destruct (accepts (extra s) (updr s) f mn mx); reflexivity.
   - destruct ((i <? 0) || (i >? zlen (up s) - 1)) eqn:G; destruct ((0 <=? i) && (i <? zlen (up s))) eqn:H; try reflexivity; lia.
   - destruct ((i <? 0) || (i >? zlen (up s) - 1)) eqn:G; destruct ((0 <=? i) && (i <? zlen (up s))) eqn:H; try reflexivity; lia.
 Qed.
+
+(* what AddChannel accepts (code after the fix for findings C15-8 / C15-9) *)
+Lemma dr_defined_In drs d : dr_defined drs d = true <-> In d drs.
+Proof.
+  unfold dr_defined. rewrite existsb_exists. split.
+  - intros [x [Hx E]]. apply Z.eqb_eq in E. now subst.
+  - intros H. exists d. split; [exact H|apply Z.eqb_refl].
+Qed.
+
+Theorem valid_dr_range_spec drs mn mx :
+  valid_dr_range drs mn mx = true <-> mn <= mx /\ forall d, mn <= d <= mx -> In d drs.
+Proof.
+  unfold valid_dr_range. split.
+  - destruct (dr_defined drs mn) eqn:A; [|discriminate]. destruct (dr_defined drs mx) eqn:B; [|discriminate].
+    destruct (mn <=? mx) eqn:L; [|discriminate]. intros F. split; [lia|]. intros d Hd.
+    rewrite forallb_forall in F. specialize (F (Z.to_nat (d - mn))).
+    replace (mn + Z.of_nat (Z.to_nat (d - mn))) with d in F by lia.
+    apply dr_defined_In, F, in_seq. lia.
+  - intros [L H].
+    assert (A : dr_defined drs mn = true) by (apply dr_defined_In, H; lia).
+    assert (B : dr_defined drs mx = true) by (apply dr_defined_In, H; lia).
+    rewrite A, B. destruct (mn <=? mx) eqn:L'; [|lia].
+    apply forallb_forall. intros k Hk. apply in_seq in Hk. apply dr_defined_In, H. lia.
+Qed.
+
+Theorem valid_channel_freq_spec f : 0 <= f ->
+  (valid_channel_freq f = true <->
+   (f < 2400000000 /\ f mod 100 = 0 /\ f / 100 < 16777216) \/
+   (2400000000 <= f /\ f mod 200 = 0 /\ f / 200 < 16777216)).
+Proof. intros Hf. unfold valid_channel_freq. destruct (f >=? 2400000000) eqn:G; lia. Qed.
+
+(* every channel a history appends was accepted: its data-rate range consists of uplink
+   data-rates of the band and its frequency is one NewChannelReq can carry *)
+Theorem adds_accepted ext drs ops c : In c (adds ext drs ops) ->
+  ext = true /\ valid_dr_range drs (minDR c) (maxDR c) = true /\ valid_channel_freq (freq c) = true /\ custom c = true.
+Proof.
+  induction ops as [|o ops IH]; [intros []|]. rewrite adds_cons. intros H. apply in_app_iff in H as [H|H]; [|now apply IH].
+  destruct o as [f mn mx| |]; cbn [add1] in H; try destruct H.
+  destruct (accepts ext drs f mn mx) eqn:A; [|destruct H]. destruct H as [<-|[]]. cbn [minDR maxDR freq custom].
+  unfold accepts in A. apply andb_true_iff in A as [A C]. apply andb_true_iff in A as [A B]. auto.
+Qed.
+
+(* the code before the fix accepted any arguments: a data-rate range (-1, 16), and
+   max = 2^63-1 (over which GetEnabledUplinkDataRates then loops without end), a frequency
+   that is not a multiple of 100 Hz - the repaired code refuses them *)
+Theorem add_channel_prefix_refuted :
+  let s := mkSt true 0 5 [] [] [] [0; 1; 2; 3; 4; 5; 6; 7] in
+  snd (add_channel_prefix s 867100000 (-1) 16) = Ok tt /\ snd (add_channel s 867100000 (-1) 16) = Err /\
+  snd (add_channel_prefix s 867100000 0 9223372036854775807) = Ok tt /\
+  snd (add_channel s 867100000 0 9223372036854775807) = Err /\
+  snd (add_channel_prefix s 867100050 0 5) = Ok tt /\ snd (add_channel s 867100050 0 5) = Err /\
+  snd (add_channel_prefix s 1677721600 0 5) = Ok tt /\ snd (add_channel s 1677721600 0 5) = Err /\
+  snd (add_channel s 867100000 0 5) = Ok tt /\ snd (add_channel s 0 0 5) = Ok tt /\
+  snd (add_channel s 2426000000 0 7) = Ok tt.
+Proof. vm_compute. repeat split; reflexivity. Qed.
 
 (* a valid Disable / Enable changes exactly the enabled flag of that channel *)
 Theorem set_enabled_effect (s : st) (v : bool) (i j : Z) : 0 <= i < zlen (up s) ->
@@ -478,7 +549,7 @@ Qed.
 Theorem cflist_channels_prefix_refuted :
   let c0 := mkChannel 0 0 5 false true in
   let c1 := mkChannel 867100000 0 5 true true in
-  let s := mkSt true 0 5 [c0; c1] [c0; c1] [] in
+  let s := mkSt true 0 5 [c0; c1] [c0; c1] [] [0; 1; 2; 3; 4; 5; 6; 7] in
   cflist_channels_prefix s = None /\ cflist_channels s = Some (CFChannels [0; 867100000; 0; 0; 0]).
 Proof. vm_compute. split; reflexivity. Qed.
 
